@@ -247,6 +247,7 @@ dangling.zone.tld. 300 IN CNAME nothing.zone.tld.\n\
 *.wild.zone.tld. 300 IN A 192.0.2.9\n\
 *.wild.zone.tld. 300 IN TXT \"wild\"\n\
 wild.zone.tld. 300 IN TXT \"wild base\"\n\
+sub.wild.zone.tld. 300 IN TXT \"blocks the wildcard below it\"\n\
 x.ent.zone.tld. 300 IN A 192.0.2.7\n\
 deep.a.b.zone.tld. 300 IN A 192.0.2.8\n\
 mx.zone.tld. 300 IN MX 10 www.zone.tld.\n";
@@ -671,6 +672,47 @@ impl World {
                 }
                 return Some(r);
             }
+        }
+        None
+    }
+
+    /// Another assembly of genuine records: the name does not exist (an
+    /// existing name between it and a wildcard blocks the expansion), but the
+    /// adversary answers with that wildcard's RRset re-owned to the query
+    /// name - its RRSIG verifies, the labels field points at the wildcard's
+    /// parent - together with the genuine denial of the query name, whose
+    /// closest encloser is the blocking name. RFC 4035 section 5.3.4: the
+    /// proof must show that no closer match exists, which here it does not.
+    pub fn forged_wildcard_replay(&self, qname: &str, qtype: Rtype) -> Option<Resp> {
+        let truth = self.resolve(qname, qtype);
+        if !truth.rcode_nx || truth.insecure {
+            return None;
+        }
+        let name = qname.to_ascii_lowercase();
+        let z = self.zones.iter().rev().find(|z| z.signed && ends_with(&name, &z.apex))?;
+        let qn = sname(qname);
+        // Closest encloser of the true denial.
+        let mut ce = None;
+        let mut cur = name.clone();
+        while let Some(p) = parent_of(&cur) {
+            if !ends_with(&p, &z.apex) {
+                break;
+            }
+            if ce.is_none() && z.exists(&p) {
+                ce = Some(p.clone());
+            } else if ce.is_some() {
+                // Strictly above the closest encloser: a wildcard here is
+                // blocked for the query name.
+                let wc = format!("*.{}", p);
+                if z.has_owner(&wc) {
+                    let mut r = Resp::default();
+                    if z.push_set(&mut r.answer, &wc, qtype, Some(&qn)) {
+                        r.authority = truth.authority.iter().filter(|rec| rec.rtype() != Rtype::SOA && !matches!(rec.data(), ZoneRecordData::Rrsig(s) if s.type_covered() == Rtype::SOA)).cloned().collect();
+                        return Some(r);
+                    }
+                }
+            }
+            cur = p;
         }
         None
     }
